@@ -32,6 +32,7 @@
 import Genshi.Lemmas.InclErase
 import Genshi.Lemmas.InclSpec
 import Genshi.Lemmas.InclGuard
+import Genshi.Lemmas.InclIll
 import Genshi.Gen.Incl
 namespace Genshi.Props.C11
 open Genshi.Incl
@@ -149,50 +150,36 @@ theorem inline_seq_eq_runtime_partial (T : List Name) (files : Files) (hH : inH 
 
 /-- replaying any list of loads keeps the cache a cache of prepared forms -/
 theorem replayLoads_inv {T : List Name} {files : Files} (hH : inH T files = true) :
-    ∀ (ls : List Load) (c : Cache), CacheInv T files c → CacheInv T files (replayLoads files c ls)
-  | [], c, hc => hc
-  | l :: ls, c, hc => by
-    have hl := loadOK_of_inH hH l.1 l.2 c hc
-    simp only [replayLoads]
-    cases hraw : loadRaw files l.1 l.2 with
-    | fuel => simp [hraw] at hl
-    | err e =>
-      simp only [hraw] at hl
-      rw [hl]
-      exact replayLoads_inv hH ls c hc
-    | ok body =>
-      simp only [hraw] at hl
-      obtain ⟨body', c', hli, _, hc'⟩ := hl
-      rw [hli]
-      exact replayLoads_inv hH ls c' hc'
+    ∀ (ls : List Load) (c : Cache), CacheInv T files c → CacheInv T files (replayLoads files c ls) :=
+  replayLoads_invW (inHW_of_inH hH)
 
-/-- **the loader after a failed render.**  Whatever the render did before it raised (an undefined name, a
-missing include without fallback, the recursion limit): the templates it loaded and prepared on the way
-stay in the loader, and every one of them is a prepared form of its file — the invariant under which
+/-- **the loader after a failed render or a failed preparation.**  Whatever the request did before it raised
+(an undefined name, a missing include without fallback, the recursion limit, and — for file sets that
+contain ill-formed templates, `inHW` — a syntax error met while a template was being prepared, at load time
+or inside a run-time include): the templates it loaded and prepared on the way stay in the loader
+(`cacheAfterFail`: `loadInlC` / `pcT` for a preparation that failed part-way, `replayLoads` of the logged
+loads otherwise), and every one of them is a prepared form of its file — the invariant under which
 `renderOn_eq` answers the next request like run-time mode -/
-theorem failed_render_keeps_cache_sound {T : List Name} {files : Files} (hH : inH T files = true) (fuel : Nat)
+theorem failed_render_keeps_cache_sound {T : List Name} {files : Files} (hH : inHW T files = true) (fuel : Nat)
     (c : Cache) (hc : CacheInv T files c) (q : Req) :
     CacheInv T files (cacheAfterFail .inlineM files fuel c q) := by
   obtain ⟨entry, kind, data⟩ := q
-  have hl := loadOK_of_inH hH entry kind c hc
+  have hl := loadInl_cache_inv hH entry kind c hc
   simp only [cacheAfterFail, loadT]
-  cases hraw : loadRaw files entry kind with
-  | fuel => simp [hraw] at hl
-  | err e =>
-    simp only [hraw] at hl
-    simp [hl, hc]
-  | ok body =>
-    simp only [hraw] at hl
-    obtain ⟨body', c', hli, _, hc'⟩ := hl
-    simp only [hli, Res.map_ok]
-    exact replayLoads_inv hH _ c' hc'
+  cases hx : loadInl files entry kind c with
+  | fuel => rw [hx] at hl; simpa using hl
+  | err e => rw [hx] at hl; simpa using hl
+  | ok r =>
+    rw [hx] at hl
+    simp only [Res.map_ok]
+    exact replayLoads_invW hH _ r.2 hl
 
 theorem renderOnF_eq {T : List Name} {files : Files} (hH : inH T files = true) (fuel : Nat)
     (c : Cache) (hc : CacheInv T files c) (q : Req) :
     (renderOnF .inlineM files fuel c q).1 = (renderOn .runtime files fuel [] q).1 ∧
     CacheInv T files (renderOnF .inlineM files fuel c q).2 := by
   have h := renderOn_eq hH fuel c hc q
-  have hf := failed_render_keeps_cache_sound hH fuel c hc q
+  have hf := failed_render_keeps_cache_sound (inHW_of_inH hH) fuel c hc q
   unfold renderOnF
   cases hx : (renderOn .inlineM files fuel c q).1 with
   | ok evs => exact ⟨by rw [← h.1, hx], h.2⟩
